@@ -1,6 +1,6 @@
 (* C11 oracle commands: sequential store-chain model (Model/Chains.v)
 
-   c11.run <members> <ngroups> <top> <ops>  ->  <results>|<log>
+   c11.run <members> <ngroups> <top> <ops>  ->  <results>|<log>|<final contents>
      members : ';'-separated  content/faults/default
                content = ','-separated id:tag:valid(0|1), '_' if empty
                faults  = string over n(one) e(rr) m(issing) i(nvalid), '_' if empty; default = one such char
@@ -9,7 +9,8 @@
      ops     : '+'-separated  g<id> | h<id> | s<id>:<tag> | x | w=<stack> ; '_' if none
      results : '+'-separated  G<tag|_>:<e> | H<0|1>:<e> | S:<e> | SX | W0 | W1 | X
                e = n | m | M (wrapped missing) | i | I (wrapped invalid) | o
-     log     : ','-separated  <member><g|h|s|x><id>[.<tag>][!]   ('!' = the member was closed) ; '_' if empty *)
+     log     : ','-separated  <member><g|h|s|x><id>[.<tag>][!]   ('!' = the member was closed) ; '_' if empty
+     final contents : ';'-separated per member, ','-separated id:tag[!]  ('!' = invalid object), '_' if empty *)
 open Conv
 open Chains
 
@@ -109,6 +110,13 @@ let register () =
     | [ms; ng; tp; ops] ->
         let members = if ms = "_" then [] else Stdlib.List.map parse_member (Stdlib.String.split_on_char ';' ms) in
         let ops = if ops = "_" then [] else Stdlib.List.map parse_op (Stdlib.String.split_on_char '+' ops) in
-        let ((rs, lg), _) = run_chain members (nat_s ng) (parse_top tp) ops in
+        let ((rs, lg), w) = run_chain members (nat_s ng) (parse_top tp) ops in
+        (* final contents: per member the ids 0..15 it holds, '!' marks an invalid object, with the data copy *)
+        let content (m : member) =
+          join "," (Stdlib.List.filter_map (fun i ->
+              match lookup m.m_content (nat_of_int i) with
+              | Some (t, v) -> Some (string_of_int i ^ ":" ^ string_of_int (int_of_nat t) ^ (if v then "" else "!"))
+              | None -> None) (Stdlib.List.init 16 (fun i -> i))) in
         join "+" (Stdlib.List.map res_s rs) ^ "|" ^ join "," (Stdlib.List.map ev_s lg)
+        ^ "|" ^ join ";" (Stdlib.List.map content w.members)
     | _ -> "ERR args")
